@@ -100,15 +100,16 @@ def audit(pid):
     res = {}
     cur = None
     for line in out.split('\n'):
-        m = re.match(r"'([^']+)' depends on axioms: \[(.*)\]", line)
-        m2 = re.match(r"'([^']+)' does not depend on any axioms", line)
+        # (names may end in primes: 'HS.C02.reachable_nvalid'' depends on …)
+        m = re.match(r"'(.+?)' depends on axioms: \[(.*)\]", line)
+        m2 = re.match(r"'(.+?)' does not depend on any axioms", line)
         if m:
             res[m.group(1)] = [a.strip() for a in m.group(2).split(',') if a.strip()]
             cur = m.group(1) if not line.rstrip().endswith(']') else None
         elif m2:
             res[m2.group(1)] = []
         else:
-            m3 = re.match(r"'([^']+)' depends on axioms: \[(.*)$", line)
+            m3 = re.match(r"'(.+?)' depends on axioms: \[(.*)$", line)
             if m3:
                 cur = m3.group(1)
                 res[cur] = [a.strip() for a in m3.group(2).split(',') if a.strip()]
